@@ -125,6 +125,42 @@ class ResolveArguments(Target):
         return [] if sv == nv else ["arguments: symbolic %r vs native %r" % (sv, nv)]
 
 
+class ResolveArgumentsDirectFirst(ResolveArguments):
+    """why the order of ComponentSpecification.dataReferences matters (its contract, below): a DIRECT reference whose path
+    ends with the name of a producer (`data/P:ref`) has the relative spelling `P:ref` of the component reference as its
+    tail.  With the direct reference first in the list -- what dataReferences guarantees -- both are replaced by their own
+    values; this target proves the substitution loop under exactly that precondition."""
+    name = 'ComponentSpecification.resolveArguments[direct reference first]'
+    assumptions = ["one direct reference data/<P>:ref and one component reference to the producer <P> of the consumer's stage, "
+                   "mentioned relatively; list order = direct first (postcondition of dataReferences)"]
+    carve_outs = {}
+
+    def setup(self, c):
+        name = lambda tag, sample: c.atom(tag, sample, excludes=NAME_EXCL, distinct_from=['stage', ''],
+                                           not_stage_prefixed=True, first_not_digit=True)
+        p1 = name('p1', 'alpha')
+        s1 = c.int('stage1')
+        c.require(compare('>=', s1, 0))
+        v1 = c.atom('value1', 'VALUE_ONE', excludes=VAL_EXCL)
+        vd = c.atom('valueD', 'VALUE_DIRECT', excludes=VAL_EXCL, differs_from=('value1',))
+        absolute = S('stage', num(c, s1), '.', p1, ':ref')
+        relative = S(p1, ':ref')
+        direct = S('data/', p1, ':ref')
+
+        def mk(tag, a, r, v):
+            return Obj('ref' + tag, method='ref', absoluteReference=a, relativeReference=r, stringRepresentation=a,
+                       resolve=Extern('DataReference.resolve', lambda c, g, v=v: v), Output='output', LoopOutput='loopoutput')
+        rd, r1 = mk('D', direct, direct, vd), mk('1', absolute, relative, v1)
+        args = S('run --in ', direct, ' --from ', relative, ' done')
+        want = S('run --in ', vd, ' --from ', v1, ' done')
+        this = Obj('spec', dataReferences=[rd, r1], commandDetails={'arguments': args}, workflowAttributes={'isRepeat': False},
+                   workflowGraphRef=Extern('workflowGraphRef', lambda c: 'graph'),
+                   identification=Obj('cid', identifier='stage0.me', stageIndex=0))
+        unused = []
+        return State(kwargs={'self': this, 'unresolved': None, 'unused': unused, 'ignoreErrors': False}, this=this,
+                     want=want, unused=unused, both_spellings=False, r1=rd, r2=r1, relative_mention=True)
+
+
 class DataReferencesOrder(Target):
     """ComponentSpecification.dataReferences: the list resolveArguments substitutes in order.  Direct (input) references
     come BEFORE component references -- the substitution loop relies on it: the relative spelling `A:ref` of a component
@@ -283,5 +319,5 @@ class ResolveArgumentsUnresolved(ResolveArguments):
         return [('an-unresolved-reference-never-becomes-the-text-None', bool(same(st.env['arguments'], st.want, c)))]
 
 
-TARGETS = [ResolveArguments(), ResolveArgumentsUnresolved(), ResolveOutputContents(), DataReferencesOrder()]
+TARGETS = [ResolveArguments(), ResolveArgumentsDirectFirst(), ResolveArgumentsUnresolved(), ResolveOutputContents(), DataReferencesOrder()]
 LEMMAS = []
